@@ -95,7 +95,10 @@ b("select-output-keys-wrong", ["C14"], T + "select.py", "        return self.key
 b("composition-issubset", ["C14"], T + "base.py", "if outer.required_keys != inner.output_keys:", "if not outer.required_keys.issubset(inner.output_keys):")
 b("pop-mutator-missing", ["C14"], T + "tensor_dict.py", "    pop = _raise_immutable_error\n", "")
 b("check-all-pairs-first-only", ["C14"], T + "tensor_dict.py", "            cls._check_key_value_pair(key, value)\n", "            cls._check_key_value_pair(key, value)\n            break\n")
-b("compute-called-directly", ["C14"], T + "aggregate.py", "        return self.transform(input)\n", "        return self.transform._compute(input)\n")
+b("compute-called-directly", ["C14"], T + "base.py", "        return self.outer(intermediate)\n", "        return self.outer._compute(intermediate)\n",
+  "nothing has compared the intermediate dictionary with outer.required_keys")
+b("compute-called-directly-unchecked-members", ["C14"], T + "stack.py", "        results = [transform(input) for transform in self.transforms]", "        results = [transform._compute(input) for transform in self.transforms]",
+  more=[(T + "stack.py", "            if transform.required_keys != self.required_keys:\n                raise ValueError(\"All transforms should require the same set of keys.\")\n", "            pass\n")])
 b("key-check-after-compute", ["C14"], T + "base.py", "        input.check_keys_are(self.required_keys)\n        return self._compute(input)", "        out = self._compute(input)\n        input.check_keys_are(self.required_keys)\n        return out")
 # C16
 b("krum-neighbourhood-off-by-one", ["C16"], A + "krum.py", "n_closest = matrix.shape[0] - self.n_byzantine - 2", "n_closest = matrix.shape[0] - self.n_byzantine - 1", "measured")
@@ -181,3 +184,8 @@ k("de-morgan", ALL, "*", "", "", "every `not (a or b)` / `not (a and b)` distrib
 k("is-not-as-not-is", ALL, "*", "", "", "every `x is not y` / `x not in y` written `not (x is y)` / `not (x in y)`", transform="negated-compare")
 k("conditional-expressions-as-statements", ALL, "*", "", "", "every `x = a if c else b` / `return a if c else b` written as an if statement", transform="ternary-to-if")
 k("if-statements-as-conditional-expressions", ALL, "*", "", "", "every two-armed if assigning one name (or returning) written as a conditional expression", transform="if-to-ternary")
+
+k("compute-called-directly-redundant", ["C14"], T + "aggregate.py", "        return self.transform(input)\n", "        return self.transform._compute(input)\n",
+  "Aggregate.required_keys IS self.transform.required_keys: the skipped check repeats the one __call__ just made")
+k("compute-called-directly-checked-members", ["C14"], T + "stack.py", "        results = [transform(input) for transform in self.transforms]", "        results = [transform._compute(input) for transform in self.transforms]",
+  "Stack.__init__ rejects members whose required keys differ from its own")
